@@ -370,7 +370,7 @@ pub fn run_c01(o: &Opts) -> Report {
     let mut rep = Report::new(
         "C01",
         "well-formed enum values (all 30 constructors on top, nesting, per-format adversarial name alphabets, boundary floats, extreme stamps, all truth/budget arities) x 3 formats: \
-         real format_narsese vs model byte for byte; real parse of the formatted string vs model parse; on the real code: parse(format(v)) has the same kind and canonical form as v (known classes K1-K3 filtered by decidable predicates); \
+         real format_narsese vs model byte for byte; real parse of the formatted string vs model parse; on the real code: parse(format(v)) has the same kind and canonical form as v (known classes K1-K3 filtered by decidable predicates); compact values on a fresh thread after inputs of each other format; \
          distinct = distinct (format, canonical value); non-trivial = compound or sentence/task",
     );
     let mut rng = Rng::new(o.seed ^ 0xC01);
@@ -432,6 +432,8 @@ pub fn run_c01(o: &Opts) -> Report {
             }
         }
     }
+    // the order in which the formats are used on a thread must not matter
+    thread_order_stream(&mut cx, &mut rng, false, false);
     let cases = std::mem::take(&mut cx.cases);
     finish(o, "C01", rep, cases)
 }
@@ -472,7 +474,7 @@ pub fn run_c04(o: &Opts) -> Report {
         "C04",
         "malformed stream (token / code-point deletion, duplication, transposition, keyword insertion, truncation at every prefix, unbalanced nesting to depth 64, 400-digit runs, 512-char inputs) x 3 formats x entry points \
          parse / parse_chars / parse_multi / Truth / Budget / Stamp / Punctuation doors: real outcome (Ok value | Err | panic) vs model outcome; \
-         plus a deterministic stream of error paths with long multi-byte payloads: every atom prefix x names of 1..40 chars made of 1-, 2-, 3-, 4-byte characters at every byte offset (rejected interval names, over-long numbers), bare / nested / in batches, and rejected number lists of truth, budget, fixed stamp; on the real code: no panic, error Display works; distinct = distinct (format, entry, input); non-trivial = non-empty input",
+         plus a deterministic stream of error paths with long multi-byte payloads: every atom prefix x names of 1..40 chars made of 1-, 2-, 3-, 4-byte characters at every byte offset (rejected interval names, over-long numbers), bare / nested / in batches, and rejected number lists of truth, budget, fixed stamp, also with characters of every Unicode numeric category (Nd / Nl / No blocks, full-width forms) in the list; compact well-formed texts on fresh threads after each other format (panics only); on the real code: no panic, error Display works; distinct = distinct (format, entry, input); non-trivial = non-empty input",
     );
     let mut rng = Rng::new(o.seed ^ 0xC04);
     let mut cx = Ctx { rep: &mut rep, cases: vec![], lcases: vec![], ldescr: vec![] };
@@ -570,6 +572,8 @@ pub fn run_c04(o: &Opts) -> Report {
         }
         rejected_payload_stream(&mut cx, &fm);
     }
+    // the order in which the formats are used on a thread must not matter
+    thread_order_stream(&mut cx, &mut rng, false, true);
     let cases = std::mem::take(&mut cx.cases);
     finish(o, "C04", rep, cases)
 }
@@ -616,7 +620,9 @@ fn rejected_payload_stream(cx: &mut Ctx, fm: &Fm) {
     if !batch.is_empty() {
         multi_case(cx, fm, &batch, "rejected-atoms-multi");
     }
-    let items = rejected_number_items(e);
+    let mut items = rejected_number_items(e);
+    // characters of every Unicode numeric category inside the number lists
+    items.extend(numeric_char_items(e));
     for (i, (kind, item)) in items.iter().enumerate() {
         let s = item_in_sentence(e, *kind, item);
         whole(cx, fm, &s, "rejected-numbers", "number-payload", true);
@@ -686,7 +692,7 @@ fn multi_case(cx: &mut Ctx, fm: &Fm, hs: &[String], stream: &str) {
 pub fn run_c08(o: &Opts) -> Report {
     let mut rep = Report::new(
         "C08",
-        "histories of 2-8 inputs mixing complete tasks/sentences/terms, budget-only / truth-only / punctuation-only fragments, partial inputs and malformed strings x 3 formats: real parse_multi vs model parse_multi (one re-targeted state); batches with repeated neighbours (every input -- each subset of the five items around a term, i.e. complete, partial and term-less, the fragments, complete values -- 2 and 3 times in a row, A B A B, A A B B), same-length and prefix neighbours; \
+        "histories of 2-8 inputs mixing complete tasks/sentences/terms, budget-only / truth-only / punctuation-only fragments, partial inputs and malformed strings x 3 formats: real parse_multi vs model parse_multi (one re-targeted state); batches with repeated neighbours (every input -- each subset of the five items around a term, i.e. complete, partial and term-less, the fragments, complete values -- 2 and 3 times in a row, A B A B, A A B B), same-length and prefix neighbours; well-formed inputs of exactly 2^k-1, 2^k, 2^k+1 (k = 8, 12, 15, 16) and 10^n-1, 10^n, 10^n+1 characters alone / parse_chars / inside a batch; compact well-formed texts on a FRESH THREAD after inputs of each other format and interleaved across formats; \
          on the real code: every position equals parsing that input alone, parse_chars equals parse, repeated parsing with the shared static instances gives equal results, lexical parser likewise; distinct = distinct (format, history); non-trivial = history with at least one failing or partial input before the last",
     );
     let mut rng = Rng::new(o.seed ^ 0xC08);
@@ -795,8 +801,212 @@ pub fn run_c08(o: &Opts) -> Report {
             }
         }
     }
+    // inputs AT SIZE THRESHOLDS: well-formed judgements of exactly 2^k - 1, 2^k, 2^k + 1 (k = 8, 12, 15, 16) and
+    // 10^n - 1, 10^n, 10^n + 1 characters (blank padding behind / in front / inside, one long name, many components),
+    // alone, through parse_chars and inside a batch: every entry point has its own copy of whatever guards the length.
+    // The model runs on the batches of the short ones only.
+    {
+        let mut lens: Vec<usize> = vec![];
+        for k in [8u32, 12, 15, 16] {
+            lens.extend([(1usize << k) - 1, 1 << k, (1 << k) + 1]);
+        }
+        for n in if o.thorough { 2..=5u32 } else { 2..=4u32 } {
+            lens.extend([10usize.pow(n) - 1, 10usize.pow(n), 10usize.pow(n) + 1]);
+        }
+        lens.sort();
+        let fms = formats();
+        for &len in lens.iter() {
+            for how in 0..5usize {
+                for fm in fms.iter() {
+                    let Some(s) = sized_text(fm.e, len, how) else { continue };
+                    let short = format!("A{}", fm.e.sentence.punctuation_judgement);
+                    let hs = vec![short.clone(), s.clone(), short];
+                    cx.rep.hist.add(format!("{}:size-threshold:{}", fm.name, if len <= 101 || (len <= 257 && how == 0) { "model+code" } else { "code" }));
+                    if len <= 101 || (len <= 257 && how == 0) {
+                        multi_case(&mut cx, fm, &hs, "size-thresholds");
+                    }
+                    let alone = real_parse(fm.e, &s);
+                    let chars = real_parse_chars(fm.e, &s);
+                    let multi = real_multi(fm.e, &hs);
+                    cx.rep.evaluations += 3;
+                    let shape = ["blanks behind", "blanks in front", "blanks after the copula", "one long subject name", "a product of one-letter components as subject"][how];
+                    let shown = format!("[{}] a text of exactly {} characters ({}): {:?} ... {:?}", fm.name, len, shape, s.chars().take(24).collect::<String>(), s.chars().skip(len.saturating_sub(16)).collect::<String>());
+                    if canon_pr(&chars) != canon_pr(&alone) {
+                        cx.fail("size-thresholds", "parse_chars differs from parse", shown.clone(), canon_pr(&alone).chars().take(80).collect(), canon_pr(&chars).chars().take(80).collect(), None);
+                    }
+                    let at1 = match &multi {
+                        Ok(v) if v.len() == 3 => match &v[1] {
+                            Some(x) => canon_narsese(x),
+                            None => "Err".into(),
+                        },
+                        Ok(_) => "wrong number of results".into(),
+                        Err(()) => "PANIC".into(),
+                    };
+                    if at1 != canon_pr(&alone) {
+                        cx.fail("size-thresholds", "parse_multi position 1 differs from parsing that input alone", shown.clone(), canon_pr(&alone).chars().take(80).collect(), at1.chars().take(80).collect(), None);
+                    }
+                    if !matches!(alone, Ok(Some(_))) {
+                        cx.rep.hist.add(format!("{}:size-threshold:not-accepted:how{}", fm.name, how));
+                    }
+                }
+            }
+        }
+    }
+    // the order in which the formats are used on a thread must not matter
+    thread_order_stream(&mut cx, &mut rng, false, false);
     let cases = std::mem::take(&mut cx.cases);
     finish(o, "C08", rep, cases)
+}
+
+// -------------------------------------------------------------------------------------------
+// order of formats on a thread (C01 C04 C08 C09)
+// -------------------------------------------------------------------------------------------
+/// compact well-formed values of a format: every plain copula between atoms, variables / operator as subject and
+/// predicate, compounds, a sentence and a task with all items -- as (text, canonical value) in three spacings:
+/// dense (atom subjects TOUCH the copula), canonical, random
+fn thread_order_texts(fm: &Fm, rng: &mut Rng) -> Vec<(String, String)> {
+    let (a, b, c) = if fm.idx == 2 { ("甲", "乙", "丙") } else { ("robin", "bird", "c") };
+    let w = Term::new_word;
+    let mut terms: Vec<Term> = vec![
+        Term::new_inheritance(w(a), w(b)),
+        Term::new_similarity(w(a), w(b)),
+        Term::new_implication(w(a), w(b)),
+        Term::new_equivalence(w(a), w(b)),
+        Term::new_implication_predictive(w(a), w(b)),
+        Term::new_implication_concurrent(w(a), w(b)),
+        Term::new_implication_retrospective(w(a), w(b)),
+        Term::new_equivalence_predictive(w(a), w(b)),
+        Term::new_equivalence_concurrent(w(a), w(b)),
+        Term::new_inheritance(Term::new_variable_independent(a), Term::new_variable_dependent(b)),
+        Term::new_similarity(Term::new_variable_query(a), Term::new_operator(b)),
+        Term::new_product(vec![w(a), w(b)]),
+        Term::new_inheritance(Term::new_product(vec![w(a), w(b)]), w(c)),
+        Term::new_conjunction(vec![Term::new_inheritance(w(a), w(b)), Term::new_similarity(w(b), w(c))]),
+        Term::new_inheritance(Term::new_set_extension(vec![w(a)]), Term::new_set_intension(vec![w(b)])),
+        Term::new_implication(Term::new_inheritance(w(a), w(b)), Term::new_inheritance(w(a), w(c))),
+        w(a),
+    ];
+    let g = term_gen_for(fm, 2, 3);
+    for _ in 0..3 {
+        terms.push(Term::new_inheritance(g.atom(rng), g.atom(rng)));
+    }
+    let stmt = Term::new_inheritance(w(a), w(b));
+    let mut vals: Vec<Narsese> = terms.into_iter().map(Narsese::Term).collect();
+    vals.push(Narsese::Sentence(Sentence::Judgement(stmt.clone(), Truth::Double(1.0, 0.9), Stamp::Present)));
+    vals.push(Narsese::Sentence(Sentence::Question(stmt.clone(), Stamp::Eternal)));
+    vals.push(Narsese::Sentence(Sentence::Goal(stmt.clone(), Truth::Single(0.5), Stamp::Fixed(-5))));
+    vals.push(Narsese::Task(Task::new(Sentence::Judgement(stmt, Truth::Double(1.0, 0.9), Stamp::Eternal), Budget::Triple(0.5, 0.75, 0.4))));
+    let mut out = vec![];
+    for v in vals {
+        let text = fm.e.format_narsese(&v);
+        if c01_known(fm.e, &v, &text).is_some() || risky_names(fm.e, v.get_term()) || respace_known(fm, &v) {
+            continue;
+        }
+        let toks = narsese_tokens(fm.e, &v, Sugar::None, rng);
+        if toks.canonical() != text {
+            continue;
+        }
+        let want = canon_narsese(&v);
+        let mut seen: Vec<String> = vec![];
+        for policy in [0usize, 1, 2] {
+            let s = toks.join(policy, rng, fm.e.space.parse);
+            if !seen.contains(&s) {
+                out.push((s.clone(), want.clone()));
+                seen.push(s);
+            }
+        }
+    }
+    out
+}
+
+/// On a FRESH thread: parse `prime` (enum and lexical parser), then evaluate `eval` with the enum parser and with
+/// lexical parse + fold.  None when the thread itself died.
+fn on_fresh_thread(prime: Vec<(usize, String)>, eval: Vec<(usize, String)>) -> Option<Vec<(String, String)>> {
+    std::thread::Builder::new()
+        .stack_size(64 << 20)
+        .spawn(move || {
+            let fms = formats();
+            for (i, s) in &prime {
+                let _ = real_parse(fms[*i].e, s);
+                let _ = real_lexfold(&fms[*i], s);
+            }
+            eval.iter().map(|(i, s)| (canon_pr(&real_parse(fms[*i].e, s)), canon_pr(&real_lexfold(&fms[*i], s)))).collect()
+        })
+        .ok()?
+        .join()
+        .ok()
+}
+
+/// The result of parsing must not depend on WHICH FORMAT (or which other inputs) the thread has parsed before: per-thread
+/// or per-process memoisation keyed by too little shows only when the formats are used in another order than the
+/// harness's fixed ascii, latex, han on its one thread.  For every ordered pair (F1, F2) a fresh thread parses a few F1
+/// inputs and then the compact F2 texts (`thread_order_texts`); one more fresh thread parses the texts of all three
+/// formats interleaved in random order.  Each result must be the value the text was printed from (which the main thread
+/// and, with `model`, the model give as well).  `panic_only`: report only panics (C04's property).
+fn thread_order_stream(cx: &mut Ctx, rng: &mut Rng, model: bool, panic_only: bool) {
+    let fms = formats();
+    let texts: Vec<Vec<(String, String)>> = fms.iter().map(|fm| thread_order_texts(fm, rng)).collect();
+    let check = |cx: &mut Ctx, fi: usize, s: &str, want: &str, got: &(String, String), history: &str| {
+        cx.rep.evaluations += 2;
+        for (which, g) in [("enum parser", &got.0), ("lexical parse + fold", &got.1)] {
+            cx.rep.hist.add(format!("thread-order:{}:{}", fms[fi].name, if g == want { "same" } else { "differs" }));
+            if g != want && (!panic_only || g == "PANIC") {
+                cx.fail(
+                    "thread-order",
+                    &format!("the result depends on what the thread parsed before ({}): {}", which, history),
+                    format!("[{}] {:?}", fms[fi].name, s),
+                    want.to_string(),
+                    g.clone(),
+                    None,
+                );
+            }
+        }
+    };
+    // main thread (and the model)
+    for (fi, ts) in texts.iter().enumerate() {
+        for (s, want) in ts {
+            let r = if model { cx.parse_case(&fms[fi], s) } else { real_parse(fms[fi].e, s) };
+            let lf = real_lexfold(&fms[fi], s);
+            check(cx, fi, s, want, &(canon_pr(&r), canon_pr(&lf)), "main thread");
+        }
+    }
+    for f1 in 0..3 {
+        for f2 in 0..3 {
+            // an atom, a spaced statement, a dense one, a sentence / task of F1 first
+            let n1 = texts[f1].len();
+            let prime: Vec<(usize, String)> = [n1.saturating_sub(8), 1, 0, n1.saturating_sub(1)].iter().filter_map(|&k| texts[f1].get(k)).map(|(s, _)| (f1, s.clone())).collect();
+            let eval: Vec<(usize, String)> = texts[f2].iter().map(|(s, _)| (f2, s.clone())).collect();
+            let history = format!("fresh thread, {} inputs first (e.g. {:?})", fms[f1].name, prime.first().map(|p| p.1.clone()).unwrap_or_default());
+            match on_fresh_thread(prime, eval) {
+                Some(got) => {
+                    for ((s, want), g) in texts[f2].iter().zip(got.iter()) {
+                        check(cx, f2, s, want, g, &history);
+                    }
+                }
+                None => cx.fail("thread-order", "the parsing thread died", history, "results".into(), "PANIC".into(), None),
+            }
+        }
+    }
+    // interleaved: all formats' texts in random order on one fresh thread, twice (starting with a latex / han text)
+    for first in [1usize, 2] {
+        let mut all: Vec<(usize, String, String)> = texts.iter().enumerate().flat_map(|(fi, ts)| ts.iter().map(move |(s, w)| (fi, s.clone(), w.clone()))).collect();
+        for i in (1..all.len()).rev() {
+            let j = rng.below(i + 1);
+            all.swap(i, j);
+        }
+        if let Some(k) = all.iter().position(|x| x.0 == first) {
+            all.swap(0, k);
+        }
+        let history = format!("fresh thread, inputs of all formats interleaved, first {:?}", all[0].1);
+        match on_fresh_thread(vec![], all.iter().map(|x| (x.0, x.1.clone())).collect()) {
+            Some(got) => {
+                for ((fi, s, want), g) in all.iter().zip(got.iter()) {
+                    check(cx, *fi, s, want, g, &history);
+                }
+            }
+            None => cx.fail("thread-order", "the parsing thread died", history, "results".into(), "PANIC".into(), None),
+        }
+    }
 }
 
 // -------------------------------------------------------------------------------------------
@@ -806,7 +1016,7 @@ pub fn run_c09(o: &Opts) -> Report {
     let mut rep = Report::new(
         "C09",
         "well-formed values printed by an independent token-level formatter and re-spaced (no spaces at all / canonical / 0-3 spaces at every token boundary; Unicode whitespace for the lexical side) x 3 formats: real parse vs model parse on every variant; \
-         on the real code: every variant parses to the value the canonical string parses to, in the enum parser and in the lexical-parse-then-fold pipeline; whitespace-stripped text through parse_chars (what enum_nse! does); distinct = distinct (format, variant text); non-trivial = all",
+         on the real code: every variant parses to the value the canonical string parses to, in the enum parser and in the lexical-parse-then-fold pipeline; whitespace-stripped text through parse_chars (what enum_nse! does); truth / budget number lists of 0..4 values with 0-2 trailing separators and a blank at every position inside the brackets; compact texts on a fresh thread after inputs of each other format (dense statements whose atom subject touches the copula); distinct = distinct (format, variant text); non-trivial = all",
     );
     let mut rng = Rng::new(o.seed ^ 0xC09);
     let mut cx = Ctx { rep: &mut rep, cases: vec![], lcases: vec![], ldescr: vec![] };
@@ -939,6 +1149,44 @@ pub fn run_c09(o: &Opts) -> Report {
             }
         }
     }
+    // number lists of every length with trailing separators and blanks at every position inside the brackets: all
+    // spellings of one list must parse alike (enum parser, lexical parse + fold); every text also goes to the model.
+    // Oracle restricted to the lists the README grammar allows and both parsers take (1..=full values, at most one
+    // trailing separator); the other lists (empty, over-full, `;;`) are compared with the model only
+    for fm in formats() {
+        for nl in number_list_texts(fm.e) {
+            let in_domain = nl.len >= 1 && nl.len <= nl.full && nl.trail <= 1;
+            let mut first: Option<(String, String)> = None;
+            for s in &nl.texts {
+                let r = cx.parse_case(&fm, s);
+                let lf = real_lexfold(&fm, s);
+                cx.rep.evaluations += 1;
+                cx.rep.hist.add(format!("{}:number-list:{:?}:len{}:trail{}:{}", fm.name, nl.kind, nl.len, nl.trail, pr_tag(&r)));
+                if !in_domain {
+                    continue;
+                }
+                let got = (canon_pr(&r), canon_pr(&lf));
+                match &first {
+                    None => {
+                        if !matches!(r, Ok(Some(_))) {
+                            cx.fail("number-lists", "well-formed number list rejected (enum parser)", format!("[{}] {:?}", fm.name, s), "Ok".into(), got.0.clone(), None);
+                        }
+                        first = Some(got);
+                    }
+                    Some(w) => {
+                        if got.0 != w.0 {
+                            cx.fail("number-lists", "blanks inside a number list change the parse (enum parser)", format!("[{}] {:?} (dense {:?})", fm.name, s, nl.texts[0]), w.0.clone(), got.0.clone(), None);
+                        }
+                        if got.1 != w.1 {
+                            cx.fail("number-lists", "blanks inside a number list change the parse (lexical parse + fold)", format!("[{}] {:?} (dense {:?})", fm.name, s, nl.texts[0]), w.1.clone(), got.1.clone(), None);
+                        }
+                    }
+                }
+            }
+        }
+    }
+    // the order in which the formats are used on a thread must not matter (main-thread results also against the model)
+    thread_order_stream(&mut cx, &mut rng, true, false);
     let cases = std::mem::take(&mut cx.cases);
     // lexical half: every White_Space character in pure-ASCII and in non-ASCII texts, real lexical parser vs its model
     // (a second shard set, Run/LexRun.v) and parse / parse + fold invariance on the real code
@@ -1424,7 +1672,7 @@ pub fn run_c15(o: &Opts) -> Report {
     let mut rep = Report::new(
         "C15",
         "item combinations (budget present / empty / absent) x (term) x (punctuation present / absent) x stamp x truth, in all three formats, through both parsers: real outcome vs model (enum) and the classification table; casts: sentence->task->sentence, task->sentence iff empty budget (else handed back unchanged), NarseseValue wrap/unwrap (9 accessor combinations), \
-         format(cast_to_task(s)) parses to a task with an empty budget in both models, through EVERY public formatting entry point (format_narsese on the wrapped value, format_task, format / FormatTo on the value and on the payload; enum and lexical), the text compared with the model formatters (lexical cases run by Run/LexRun.v); kind(parse(format(v))) = kind(v) through every entry point; distinct = distinct (format, text); non-trivial = all",
+         format(cast_to_task(s)) parses to a task with an empty budget in both models, through EVERY public formatting entry point (format_narsese on the wrapped value, format_task, format / FormatTo on the value and on the payload; enum and lexical), the text compared with the model formatters (lexical cases run by Run/LexRun.v); kind(parse(format(v))) = kind(v) through every entry point; truth / budget number lists of 0..4 values with 0-2 trailing separators and blanks inside the brackets through both parsers; distinct = distinct (format, text); non-trivial = all",
     );
     let mut rng = Rng::new(o.seed ^ 0xC15);
     let mut cx = Ctx { rep: &mut rep, cases: vec![], lcases: vec![], ldescr: vec![] };
@@ -1509,6 +1757,43 @@ pub fn run_c15(o: &Opts) -> Report {
                 let k = if lv.is_task() { 2 } else if lv.is_sentence() { 1 } else { 0 };
                 if k != kind_of(v) {
                     cx.fail("classify", "enum and lexical parser classify the same text differently", format!("[{}] {:?}", fm.name, s), ["term", "sentence", "task"][k].into(), ["term", "sentence", "task"][kind_of(v)].into(), None);
+                }
+            }
+        }
+        // number lists of every length 0..4 with 0-2 trailing separators and blanks inside the brackets (truth: sentence,
+        // budget: task): every text against the model; where the list is one the README grammar allows and a writer would
+        // use (1..=full values, at most one trailing separator) both parsers must accept it and classify it by the items
+        // present; elsewhere (empty, over-full, `;;`) the two parsers are compared only when both accept
+        for nl in number_list_texts(e) {
+            let in_domain = nl.len >= 1 && nl.len <= nl.full && nl.trail <= 1;
+            let want_kind = if nl.kind == ItemKind::Budget { 2 } else { 1 };
+            // the dense text, the all-blank text and two single-blank texts per list (C09 runs all of them)
+            let k = nl.texts.len();
+            for (j, s) in nl.texts.iter().enumerate() {
+                if !(j <= 1 || j + 1 == k || j == k / 2 || j + 2 == k) {
+                    continue;
+                }
+                let r = cx.parse_case(&fm, s);
+                let lr = guard(|| fm.l.parse(s).ok());
+                cx.rep.evaluations += 1;
+                cx.rep.hist.add(format!("{}:number-list:{:?}:len{}:trail{}:{}", fm.name, nl.kind, nl.len, nl.trail, pr_tag(&r)));
+                let lk = match &lr {
+                    Some(Some(lv)) => Some(if lv.is_task() { 2 } else if lv.is_sentence() { 1 } else { 0 }),
+                    _ => None,
+                };
+                let ek = match &r {
+                    Ok(Some(v)) => Some(kind_of(v)),
+                    _ => None,
+                };
+                let names = |k: Option<usize>| k.map(|k| ["term", "sentence", "task"][k]).unwrap_or("Err").to_string();
+                if in_domain {
+                    if ek != Some(want_kind) || lk != Some(want_kind) {
+                        cx.fail("number-lists", "both parsers must classify a text with a well-formed number list by the items present", format!("[{}] {:?}", fm.name, s), names(Some(want_kind)), format!("enum {} / lexical {}", names(ek), names(lk)), None);
+                    }
+                } else if let (Some(a), Some(b)) = (ek, lk) {
+                    if a != b {
+                        cx.fail("number-lists", "enum and lexical parser classify the same text differently", format!("[{}] {:?}", fm.name, s), names(lk), names(ek), None);
+                    }
                 }
             }
         }
